@@ -208,7 +208,9 @@ Forget(s, c, ch, out) ==
     /\ table' = [table EXCEPT ![s][c] = @ \ {ch.scid}]
     /\ leTable' = IF c \in LeConns /\ "le_elif" \notin Bugs THEN [leTable EXCEPT ![s][c] = @ \ {ch.dcid}] ELSE leTable
     /\ LET ws == OnChans(s, c, {ch.scid})
-           cs == IF ch.st = "config" THEN OnReq(s, c, ch.rid) ELSE {}        \* closed by the peer while being configured: the connect fails
+           \* closed by the peer before the connect returned: the connect fails (with the last channel of its request)
+           cs == IF ch.st \in {"connecting", "config"} /\ ~\E x \in chan[s][c] \ {ch} : x.rid = ch.rid /\ x.st \in {"connecting", "config"}
+                 THEN OnReq(s, c, ch.rid) ELSE {}
        IN IF "no_release" \in Bugs
           THEN UNCHANGED <<waiters, done>>
           ELSE /\ waiters' = waiters \ (ws \cup cs)
@@ -224,14 +226,17 @@ RecvDreq(r, c) ==
        IN \* the request names both CIDs and both have to match; on a link with orphans (after an abort) a receiver that only
           \* looks at its own CID is tolerated
           \E strict \in (IF "dreq_dcid_only" \in Bugs THEN {FALSE} ELSE IF taint[c] THEN BOOLEAN ELSE {TRUE}) :
-          LET known == {ch \in chan[r][c] : ch.scid = p[2] /\ (ch.dcid = p[1] \/ ~strict) /\ ch.st \in {"config", "open", "closing"}}
+          LET known == {ch \in chan[r][c] : ch.scid = p[2] /\ (ch.dcid = p[1] \/ ~strict)
+                                             /\ (ch.st \in {"config", "open", "closing"} \/ (~strict /\ ch.st = "connecting"))}
           IN IF known = {}
              THEN /\ msgs' = Pop(c, r)
-                  /\ UNCHANGED <<chan, table, leTable, waiters, done>>
+                  /\ UNCHANGED <<chan, table, leTable, req, waiters, done>>
              ELSE \E ch \in known :
                   /\ Forget(r, c, ch, "ok")
+                  /\ req' = IF ch.st = "connecting" /\ ~\E x \in chan[r][c] \ {ch} : x.rid = ch.rid /\ x.st = "connecting"
+                            THEN [req EXCEPT ![r][c] = @ \ {ch.rid}] ELSE req
                   /\ msgs' = [msgs EXCEPT ![c][r] = Tail(@), ![c][Peer(r)] = Append(@, [m EXCEPT !.t = "drsp"])]
-    /\ UNCHANGED <<req, link, ops, taint, unjust>>
+    /\ UNCHANGED <<link, ops, taint, unjust>>
 
 RecvDrsp(s, c) ==
     /\ HasMsg(c, s, "drsp")
